@@ -7,6 +7,9 @@ Decided clauses (see DESIGN.md section 3, C09):
       of public calls from one thread can reach the checker's abort().
   D3  the back-end specific block primitives are alias-safe in the same way
       (input == output), a necessary condition for identical results.
+  D4  masked AEAD = specification in every share configuration.
+  D5  the saved form of an ISAP key is the canonical byte image of its states
+      in every C back end (a key saved by one build loads under another).
 Undecided: byte-identical results of arbitrary workloads across builds.
 """
 from . import facts, ir, repo, typestate
@@ -17,7 +20,8 @@ MANIFEST = {
     "text": "decides D1 (pre-computed per-back-end initial values equal the specification in all three "
             "encodings), D2 (acquire/release balance: typestate over the whole call graph in the "
             "CHECK_ACQUIRE_RELEASE build for every share triple, abort unreachable) and D3 (alias safety of the "
-            "per-back-end block primitives); functional agreement of the C back ends follows from C01-C08 being "
+            "per-back-end block primitives), D5 (the saved ISAP key has the same canonical byte form in every C back end); "
+            "functional agreement of the C back ends follows from C01-C08 being "
             "decided per back end against one specification; results of the non-x86 assembly back ends are not "
             "decided",
     "note": "trusted: clang/LLVM-14 lowering and irdump; storage callbacks and libc do not touch the checker "
@@ -70,6 +74,18 @@ def run(rep, tier):
         cfgs += [repo.Config("c32", 4, 4, 4), repo.Config("c64", 3, 3, 3), repo.Config("c64", 4, 1, 4), repo.Config("c32", 2, 1, 2),
                  repo.Config("c64", 3, 3, 4), repo.Config("direct", 4, 2, 4), repo.Config("direct", 3, 2, 3)]
     rules_c10.rule_key_lifecycle(rep, tier, rid="C09.D4", cfgs=cfgs, prop="C09")
+    # D5: byte strings that leave the library for storage have one form in every back end: the saved ISAP key is the
+    # canonical big-endian image of the two pre-computed states (and loads back to the same key), whatever the layout
+    from . import modecheck, modes
+    rid = "C09.D5"
+    rep.rule(rid, "a saved ISAP key is the canonical byte image of the pre-computed states in every C back end")
+    cases = []
+    for js, cname, layout, maxs, units in modes.prepare(tier):
+        for alg in ("128", "128a", "80pq"):
+            cases.append((js, cname, layout, "case_isap", (alg, 1, 1), "isap %s saved key" % alg, "ascon%s_isap_aead_save_key" % alg))
+    for d in modecheck.run_cases("C09", rid, tier, cases, None):
+        rep.merge(d)
+    rep.floor_discharged(rid, len(cases))
 
 
 def rule_d2(rep, tier):
